@@ -1,5 +1,6 @@
 import Gsp.Props.C05
 import Gsp.Model.Verify
+import Gsp.Props.C14
 /-! C06 — a proof is accepted only for the credential its claim was derived from. -/
 namespace Gsp.Props.C06
 open Gsp.Claim Gsp.Props.C05 Gsp.Verify
@@ -264,5 +265,20 @@ example : verifyList [(.bjj, (true, false)), (.bjj, (false, true))] .bjj (fun _ 
     verifyList [(.bjj, (false, true)), (.bjj, (true, false))] .bjj (fun _ => true)
       (fun p => if p.1 then .ok () else .error "proof generated for another credential") (fun p => if p.2 then .ok else .err "signature") ≠ .ok := by
   constructor <;> decide
+
+/-! ### the binding check compares the two claims by their hexadecimal spellings (verifyCredentialCoreClaim) -/
+section ClaimHex
+open Gsp.Hex
+
+/-- two claims with one spelling are one claim (the binding check compares spellings) -/
+theorem claim_hex_inj (q : Nat) (a b : List Nat) (ha8 : a.length = 8) (hb8 : b.length = 8)
+    (ha : ∀ s ∈ a, s < q) (hb : ∀ s ∈ b, s < q) (hq256 : q ≤ 2 ^ 256) (h : claimToHex a = claimToHex b) : a = b := by
+  have h1 := Gsp.Props.C14.claim_hex_roundtrip q a ha8 ha hq256
+  have h2 := Gsp.Props.C14.claim_hex_roundtrip q b hb8 hb hq256
+  rw [h] at h1
+  rw [h1] at h2
+  simpa using h2
+
+end ClaimHex
 
 end Gsp.Props.C06
